@@ -45,9 +45,26 @@ func runHealth(ops []string) string {
 			out = append(out, renderReadyz(h))
 		case op == "isready":
 			out = append(out, fmt.Sprintf("R:%v", h.IsReady()))
-		case op == "wait":
+		case op == "wait" || op == "waitlate":
+			// waitlate: the caller looks at the channel only a while (many check intervals) after the cancellation
 			ctx, cancel := context.WithCancel(context.Background())
 			ch := h.WaitForReady(ctx)
+			if op == "waitlate" && !h.IsReady() {
+				time.Sleep(20 * time.Millisecond)
+				cancel()
+				time.Sleep(40 * time.Millisecond)
+				select {
+				case err, open := <-ch:
+					if open && err == context.Canceled {
+						out = append(out, "W:ctxerr")
+					} else {
+						out = append(out, fmt.Sprintf("W:bad:%v:%v", open, err))
+					}
+				case <-time.After(2 * time.Second):
+					out = append(out, "W:hang")
+				}
+				continue
+			}
 			select {
 			case err, open := <-ch:
 				if !open {
